@@ -99,6 +99,27 @@ func c08EmptyDST(fi int, msg []byte, dst []byte) (key, detail string) {
 func c08Expander(msg, dst []byte, n int) (key, detail string) {
 	var got []byte
 
+	if !secp256k1.VerifHasExpandXMD {
+		// this tree has no private expander of the known shape: observe it through HashToScalar, which reduces
+		// exactly the 48-byte expansion (the 96-byte one is covered by the hash-to-curve cases)
+		if n != 48 {
+			return "", ""
+		}
+
+		var s *secp256k1.Scalar
+
+		if p := catchStr(func() { s = secp256k1.HashToScalar(cloneBytes(msg), cloneBytes(dst)) }); p != "" {
+			return "HashToScalar/panic", p
+		}
+
+		want := ref.Mod(ref.OS2IP(ref.ExpandXMD(msg, dst, 48)), ref.N)
+		if ok, why := scalarIs(s, want); !ok {
+			return "HashToScalar/differs-from-RFC9380/" + dstClass(dst), fmt.Sprintf("msg=%x dst=%x (len %d): %s", trunc(msg), trunc(dst), len(dst), why)
+		}
+
+		return "", ""
+	}
+
 	if p := catchStr(func() { got = secp256k1.VerifExpandXMD(cloneBytes(msg), cloneBytes(dst), uint(n)) }); p != "" {
 		return "expandXMD/panic", p
 	}
